@@ -40,6 +40,7 @@ fixed = [
  ("F37", "C11", "74f5ed5", "S.with_only_columns({d,e}).sorted([...]).with_calculated_column(b, ...) where S has a column b: the nested subquery (F18 repair) buried the un-sliced sort; a join on top was accepted without the order-loss error and a later sort / slice saw an unordered subquery; also C05"),
  ("F38", "C07", "dc200c7", "Processor.process(tree) where the tree holds a statically empty LeafRelation without payload (what the base Engine.get_doomed_payload provides) anywhere but directly beneath a transfer: AssertionError 'Match should be exhaustive'"),
  ("F39", "C07", "87252a6", "Processor.process(payloadless_doomed_leaf.chain(payloadless_doomed_leaf.transferred_to(same engine)).materialized('m')): the processed target is a leaf, materialized() of it is the leaf itself, and attaching the doomed payload to it raised TypeError (found by `vp check` with VERIF_SEED=1 right after F38)"),
+ ("F40", "C07", "1e8df74", "process(materialize(chain(doomed, materialize(chain(doomed, payloadless_doomed_leaf))))): the outer materialization was told its (collapsed) target was persisted, attached None and was left without a payload; also C10"),
  ("F27", "C08", "149b8d5", "identity_in_sql.join(rel_in_iteration) accepted: Select marker around an iteration-engine relation; process() AssertionError in Select.reapply; also C20 (engine mismatch not rejected), C14"),
  ("F26", "C14", "8ebe476", "sql_rel.transferred_to(sql) returned a new Select around sql_rel (not the relation itself), burying an un-sliced sort; found through C08 (order-loss error raised only by process())"),
 ]
